@@ -8,8 +8,8 @@ A grid's topology is given the way the compressed-column matrices store it:
 Modelled functions (as the code is NOW, after the repairs of F11/F12):
   (a) `_extract_submatrix`, `extract_subgrid` (cells; boolean masks; `sort`; the `Grid` constructor's
       orientation check), `_extract_cells_from_faces_{1d,2d,3d}`, `partition_grid`;
-  (b) `partition_structured` (per-axis coarse index and the 2-D/3-D combination; the 1-D branch follows the
-      property, i.e. the proposed repair `fixes/C22-partition-structured-1d.diff`);
+  (b) `partition_structured` (per-axis coarse index and the 1-D/2-D/3-D combination) and
+      `determine_coarse_dimensions` over integers (exact integer n-th roots instead of float `np.power`);
   (c) `overlap` (both criteria: the caller passes the cell→node or the cell→face relation).
 -/
 namespace PorepyVerif.C22
@@ -216,6 +216,119 @@ def partitionStructured (fine coarse : List Nat) : Except Err (List Int) :=
     if axisBad f0 c0 || axisBad f1 c1 || axisBad f2 c2 then .error .value else
     .ok (combine3 (axisIdx f0 c0) (axisIdx f1 c1) (axisIdx f2 c2) c0 c1)
   | _, _ => .error .value
+
+/-! ### `determine_coarse_dimensions` (integers; the float n-th root is replaced by its exact value) -/
+
+def prodL (l : List Nat) : Nat := l.foldl (· * ·) 1
+
+/-- largest `m ≤ n` with `m^k · q ≤ p` (0 if there is none) -/
+def rootFloorAux (k p q : Nat) : Nat → Nat
+  | 0 => 0
+  | n + 1 => if (n + 1) ^ k * q ≤ p then n + 1 else rootFloorAux k p q n
+
+/-- `⌊(p/q)^(1/k)⌋` : `np.floor(np.power(target / optimum.prod(), 1 / k))` in exact arithmetic -/
+def rootFloor (k p q : Nat) : Nat := rootFloorAux k p q p
+
+/-- `⌈(p/q)^(1/k)⌉` -/
+def rootCeil (k p q : Nat) : Nat :=
+  if rootFloor k p q ^ k * q = p then rootFloor k p q else rootFloor k p q + 1
+
+def exactRoot (k p q : Nat) : Nat × Nat := (rootFloor k p q, rootCeil k p q)
+
+/-- one axis of the search: fine size, current optimum, found flag -/
+structure Dim where
+  fine : Nat
+  opt : Nat
+  found : Bool
+
+/-- `multinary_permutations(2, n)`: all bit vectors, first digit fastest -/
+def perms : Nat → List (List Bool)
+  | 0 => [[]]
+  | n + 1 => (perms n).flatMap (fun rest => [false :: rest, true :: rest])
+
+/-- dimension hits the ceiling: `s_high == fine_size` and not yet found -/
+def isHit (hi : Nat) (d : Dim) : Bool := decide (min d.fine hi = d.fine) && !d.found
+
+/-- `optimum[hit_ceil] = s_high[hit_ceil]; found[hit_ceil] = True` -/
+def hitUpdate (hi : Nat) (d : Dim) : Dim :=
+  if isHit hi d then { d with opt := min d.fine hi, found := true } else d
+
+/-- `size_now[i] = coarse_size[bit, i]` with `s_low[found] = s_high[found] = optimum[found]`,
+    `s_low = max(1, ⌊s⌋)`, `s_high = min(fine, ⌈s⌉)` elsewhere -/
+def pickD (lo hi : Nat) : List Dim → List Bool → List Nat
+  | d :: ds, b :: bs =>
+    (if d.found then d.opt else if b then min d.fine hi else max 1 lo) :: pickD lo hi ds bs
+  | _, _ => []
+
+/-- the loop over all roundings: `if abs(target - prod) < dist: dist = target - prod; optimum = size_now`
+    (the new `dist` is signed, as coded) -/
+def searchPerms (target : Int) : List (List Nat) → Int → List Nat → List Nat
+  | [], _, opt => opt
+  | s :: rest, dist, opt =>
+    if ((target - (prodL s : Int)).natAbs : Int) < dist then searchPerms target rest (target - (prodL s : Int)) s
+    else searchPerms target rest dist opt
+
+/-- the `while` loop; `root k p q` supplies (⌊·⌋, ⌈·⌉) of `(p/q)^(1/k)`; `it` = `it_counter`.
+    Running out of fuel or `it_counter > nd` is the code's `ValueError("... bug somewhere")`. -/
+def dcdLoop (root : Nat → Nat → Nat → Nat × Nat) (target nd fineProd : Nat) :
+    Nat → Nat → List Dim → Except Err (List Nat)
+  | 0, _, _ => .error .value
+  | fuel + 1, it, dims =>
+    if dims.all (·.found) || decide (nd < it) then
+      if nd < it then .error .value else .ok (dims.map (·.opt))
+    else
+      let r := root (dims.countP (fun d => !d.found)) target (prodL (dims.map (·.opt)))
+      let dims' := dims.map (hitUpdate r.2)
+      -- `np.any(hit_ceil)` on the INDEX array: true iff a dimension other than 0 hit the ceiling
+      if ((dims.map (isHit r.2)).drop 1).any id then dcdLoop root target nd fineProd fuel (it + 1) dims'
+      else
+        if nd < it + 1 then .error .value else
+        .ok (searchPerms target ((perms nd).map (pickD r.1 r.2 dims')) fineProd (dims'.map (·.opt)))
+
+/-- `determine_coarse_dimensions(target, fine_size)` -/
+def dcd (root : Nat → Nat → Nat → Nat × Nat) (target : Nat) (fine : List Nat) : Except Err (List Nat) :=
+  dcdLoop root (max 1 (min target (prodL fine))) fine.length (prodL fine) (fine.length + 2) 0
+    (fine.map (fun f => { fine := f, opt := 1, found := false }))
+
+/-! ### `partition_coordinates`: box search over exact rationals -/
+
+/-- one active coordinate axis: extent of the nodes `[lo, hi]`, number of coarse boxes `c` -/
+structure Axis where
+  lo : Rat
+  hi : Rat
+  c : Nat
+
+/-- `lower_coord[j] <= cc[j] < upper_coord[j]` for box number `k` along the axis, `dx = delta / coarse_dims` -/
+def inBox (a : Axis) (k : Nat) (x : Rat) : Bool :=
+  decide (a.lo + (a.hi - a.lo) / (a.c : Rat) * (k : Rat) ≤ x) &&
+  decide (x < a.lo + (a.hi - a.lo) / (a.c : Rat) * ((k : Rat) + 1))
+
+/-- `np.all(hit, axis=0)` for one cell -/
+def hitAll : List Axis → List Nat → List Rat → Bool
+  | a :: as, k :: ks, x :: xs => inBox a k x && hitAll as ks xs
+  | [], [], [] => true
+  | _, _, _ => false
+
+/-- `np.unravel_index(i, dims)` (C order: last axis fastest) -/
+def unravel : List Nat → Nat → List Nat
+  | [], _ => []
+  | _ :: cs, i => (i / prodL cs) :: unravel cs (i % prodL cs)
+
+/-- the loop `for i in range(nc): partition[hit_ind] = i`, started from −1, for one cell centre -/
+def assignBox (axes : List Axis) (x : List Rat) : Int :=
+  (List.range (prodL (axes.map (·.c)))).foldl
+    (fun acc i => if hitAll axes (unravel (axes.map (·.c)) i) x then (i : Int) else acc) (-1)
+
+/-- the box search of `partition_coordinates` (connectivity check off); `assert partition.min() >= 0` -/
+def pcoord (axes : List Axis) (centers : List (List Rat)) : Except Err (List Int) :=
+  let p := centers.map (assignBox axes)
+  if p.any (fun v => decide (v < 0)) then .error .assertion else .ok p
+
+/-- smallest distance of a coordinate to a box boundary along its axis (decision margin of the float code) -/
+def axisMargin (a : Axis) (x : Rat) : Rat :=
+  ((List.range (a.c + 1)).map (fun (k : Nat) =>
+      let d := x - (a.lo + (a.hi - a.lo) / (a.c : Rat) * (k : Rat)); if d < 0 then -d else d)).foldl
+    (fun m d => if d < m then d else m) (if a.hi - a.lo < 0 then a.lo - a.hi else a.hi - a.lo)
 
 /-! ### (c) `overlap` -/
 
